@@ -59,6 +59,24 @@ P = {
          "C20 has no state and no histories: the only thing to enumerate is a finite family of configurations and the judge is the compiler. This is the degenerate end of the model-checking family (configuration enumeration) and is labelled 'other'.",
          "Trusted: rustc's type/const checker; the configuration list in probe_c20/gen.py.", "DESIGN.md 7/C20"),
 }
+# exploration shapes added later (seeded rounds 4 and 5), appended to the technique text
+EXTRA = {
+ "C01": "; after-prior sweeps: every complete sequence of <=3 bytes (two chained in the thorough tier), then every continuation of <=2 bytes, against R-AUTO2",
+ "C02": "; after-prior sweeps: every complete sequence of <=2 bytes (two chained in the thorough tier), then every continuation of <=2 bytes, against R-AUTO1",
+ "C07": "; after-prior sweeps: every complete sequence (two chained in the thorough tier), then every continuation of <=2 bytes, against a fresh real decoder",
+ "C03": "; AltGr level with CapsLock on; end-to-end also with Set 2 status bytes before the key, bit-serially after a glitch + clear(), and from Set 1; two-press decoder family with key-then-modifier pairs",
+ "C05": "; frame chains: 2048 first frames x representative middle frames (1-2) x 2048 last frames through one bit-serial decoder",
+ "C06": "; add_word calls interleaved with the bits of a frame in the BFS; frame chains: 2048 first frames x representative middle frames (1-2) x 2048 last frames through one decoder",
+ "C12": "; every character re-typed through EventDecoder after each of 2022 chord histories (0-2 modifiers held, a key tapped, all released) per layout and Ctrl mode",
+ "C13": "; every ordered pair of key sequences also through add_word and add_bit",
+ "C14": "; consultation-counting layout: exactly one layout consultation per ordinary press, none otherwise",
+ "C15": "; two-press decoder family incl. all pairs of modifier events",
+ "C16": "; two-press decoder family incl. presses of the modifier and lock keys themselves",
+ "C17": "; every chain of 2 and 3 change_layout calls from every variant",
+}
+for _k, _v in EXTRA.items():
+    _c = P[_k]
+    P[_k] = (_c[0], _c[1] + _v) + _c[2:]
 NOT_YET = {}  # id -> reason (filled below for everything not in P)
 
 ENGINES = [
